@@ -164,8 +164,12 @@ pub fn batch(index: u64, mut rng: Rng, tier: Tier) -> Outcome {
                 let p = match k {
                     0 => random_bytes(&mut rng),
                     1 => {
-                        let b = gen_structured(&mut rng);
-                        mutate(&mut rng, &b)
+                        if rng.chance(1, 4) {
+                            gen_mem_edge(&mut rng)
+                        } else {
+                            let b = gen_structured(&mut rng);
+                            mutate(&mut rng, &b)
+                        }
                     }
                     _ => gen_stack_edge(&mut rng),
                 };
